@@ -10,6 +10,7 @@ import (
 	"errors"
 	"fmt"
 	"strings"
+	"sync"
 	"time"
 
 	"github.com/goptics/varmq/internal/queues"
@@ -111,7 +112,16 @@ type Sub struct {
 	h           *hnd
 	ad          *simAdapter
 	genID       string // id produced by the generator during its Add (IDGen)
+	hb          sync.Mutex // real happens-before edge for handing the handle to another client task
 }
+
+// publish/acquire: a real program that passes a handle from one goroutine to
+// another synchronises doing so (channel, mutex); the harness passes it through
+// plain norace memory, so it adds exactly that edge and nothing else.
+func (s *Sub) publish() { s.hb.Lock(); s.hb.Unlock() }
+func (s *Sub) acquire() { s.hb.Lock(); s.hb.Unlock() }
+func (b *bnd) publish() { b.hb.Lock(); b.hb.Unlock() }
+func (b *bnd) acquire() { b.hb.Lock(); b.hb.Unlock() }
 
 type hnd struct {
 	ej EnqueuedJob
@@ -132,6 +142,7 @@ type bnd struct {
 	closedAt  uint64
 	readerEnd bool
 	waitRets  []uint64
+	hb        sync.Mutex
 }
 
 type streamItem struct {
@@ -147,7 +158,7 @@ type qh struct {
 	idx    int
 	cfg    QCfg
 	add    func(v int, prio int, id string) (*hnd, bool)
-	addAll func(items []Item[int]) *bnd
+	addAll func(items []Item[int], b *bnd)
 	purge  func()
 	close  func() error
 	nump   func() int
@@ -156,6 +167,7 @@ type qh struct {
 	closeInv, closeRet uint64
 	addsInvoked int
 	boundAt uint64
+	hb      sync.Mutex // handing the queue handle to other client tasks (see Sub.publish)
 }
 
 type World struct {
@@ -189,6 +201,7 @@ type World struct {
 	crashes    int
 	crashStep  uint64
 	finalDone  bool
+	probeSub   int
 	scripts    []*scriptTask
 }
 
@@ -303,6 +316,8 @@ func (wd *World) bindQueue(qc QCfg, shared *simAdapter) *qh {
 	q.idx = len(wd.qs)
 	q.cfg = qc
 	q.boundAt = inv
+	q.hb.Lock()
+	q.hb.Unlock()
 	wd.qs = append(wd.qs, q)
 	r.lifeBind(wd, inv)
 	return q
@@ -350,7 +365,7 @@ func (wd *World) bindPlain(b IWorkerBinder[int], kind int, qc QCfg) *qh {
 			}
 			return &hnd{ej: h}, true
 		}
-		q.addAll = func(items []Item[int]) *bnd { return &bnd{gj: lq.AddAll(items)} }
+		q.addAll = func(items []Item[int], b *bnd) { b.gj = lq.AddAll(items) }
 		q.purge, q.close, q.nump = lq.Purge, lq.Close, lq.NumPending
 	case qkPrio:
 		var lq PriorityQueue[int]
@@ -367,7 +382,7 @@ func (wd *World) bindPlain(b IWorkerBinder[int], kind int, qc QCfg) *qh {
 			}
 			return &hnd{ej: h}, true
 		}
-		q.addAll = func(items []Item[int]) *bnd { return &bnd{gj: lq.AddAll(items)} }
+		q.addAll = func(items []Item[int], b *bnd) { b.gj = lq.AddAll(items) }
 		q.purge, q.close, q.nump = lq.Purge, lq.Close, lq.NumPending
 	case qkPers:
 		q.ad = wd.adapterFor(qc, false)
@@ -410,7 +425,7 @@ func (wd *World) bindErr(b IErrWorkerBinder[int], kind int, qc QCfg) *qh {
 			}
 			return &hnd{ej: h, ee: h}, true
 		}
-		q.addAll = func(items []Item[int]) *bnd { g := lq.AddAll(items); return &bnd{ge: g} }
+		q.addAll = func(items []Item[int], b *bnd) { b.ge = lq.AddAll(items) }
 		q.purge, q.close, q.nump = lq.Purge, lq.Close, lq.NumPending
 		return q
 	}
@@ -428,7 +443,7 @@ func (wd *World) bindErr(b IErrWorkerBinder[int], kind int, qc QCfg) *qh {
 		}
 		return &hnd{ej: h, ee: h}, true
 	}
-	q.addAll = func(items []Item[int]) *bnd { g := lq.AddAll(items); return &bnd{ge: g} }
+	q.addAll = func(items []Item[int], b *bnd) { b.ge = lq.AddAll(items) }
 	q.purge, q.close, q.nump = lq.Purge, lq.Close, lq.NumPending
 	return q
 }
@@ -450,7 +465,7 @@ func (wd *World) bindResult(b IResultWorkerBinder[int, int], kind int, qc QCfg) 
 			}
 			return &hnd{ej: h, er: h}, true
 		}
-		q.addAll = func(items []Item[int]) *bnd { g := lq.AddAll(items); return &bnd{gr: g} }
+		q.addAll = func(items []Item[int], b *bnd) { b.gr = lq.AddAll(items) }
 		q.purge, q.close, q.nump = lq.Purge, lq.Close, lq.NumPending
 		return q
 	}
@@ -468,7 +483,7 @@ func (wd *World) bindResult(b IResultWorkerBinder[int, int], kind int, qc QCfg) 
 		}
 		return &hnd{ej: h, er: h}, true
 	}
-	q.addAll = func(items []Item[int]) *bnd { g := lq.AddAll(items); return &bnd{gr: g} }
+	q.addAll = func(items []Item[int], b *bnd) { b.gr = lq.AddAll(items) }
 	q.purge, q.close, q.nump = lq.Purge, lq.Close, lq.NumPending
 	return q
 }
@@ -581,7 +596,7 @@ func (r *recQ) remember(item any, sub int) { r.items = append(r.items, qItem{ite
 func (r *recQ) forget(item any) int {
 	for i, x := range r.items {
 		if x.item == item {
-			r.items = append(r.items[:i:i], r.items[i+1:]...)
+			r.items = removeAt(r.items, i)
 			return x.sub
 		}
 	}
